@@ -1,4 +1,15 @@
-from typing import Any, Protocol  # noqa: F401
+from typing import Any, Mapping, Protocol  # noqa: F401
+
+
+def merge_headers(headers: dict[str, str], new_headers: Mapping[str, str]) -> None:
+    """
+    Update `headers` in place with `new_headers`. HTTP header names are case-insensitive:
+    an existing entry whose name differs only in letter case is replaced, not sent alongside.
+    """
+    for name, value in new_headers.items():
+        for existing in [k for k in headers if k != name and k.lower() == name.lower()]:
+            del headers[existing]
+        headers[name] = value
 
 
 class BaseAuth(Protocol):
